@@ -71,6 +71,47 @@ theorem mem_of_lookup {l : List (Nat × Nat)} {f v : Nat} (h : l.lookup f = some
       subst this; subst h; exact List.mem_cons_self
     · exact List.mem_cons_of_mem _ (ih h)
 
+/-- lookup after `del d[f]` -/
+theorem lookup_filter_ne (l : List (Nat × Nat)) (f g : Nat) :
+    (l.filter (fun e => e.1 != f)).lookup g = if g = f then none else l.lookup g := by
+  induction l with
+  | nil => simp
+  | cons e r ih =>
+    obtain ⟨k, w⟩ := e
+    by_cases hk : k = f
+    · subst hk
+      have e1 : ((k, w) :: r).filter (fun e => e.1 != k) = r.filter (fun e => e.1 != k) := by simp
+      rw [e1, ih]
+      by_cases hg : g = k
+      · simp [hg]
+      · have : (g == k) = false := by simp [hg]
+        simp [hg, List.lookup, this]
+    · have e1 : ((k, w) :: r).filter (fun e => e.1 != f) = (k, w) :: r.filter (fun e => e.1 != f) := by simp [hk]
+      rw [e1]
+      simp only [List.lookup]
+      by_cases hg : g = k
+      · subst hg; simp [hk]
+      · have : (g == k) = false := by simp [hg]
+        rw [this]; exact ih
+
+/-- the public part of a dict answers for public names like the dict -/
+theorem lookup_filter_pred (l : List (Nat × Nat)) (q : Nat → Bool) (g : Nat) (hq : q g = true) :
+    (l.filter (fun e => q e.1)).lookup g = l.lookup g := by
+  induction l with
+  | nil => rfl
+  | cons e r ih =>
+    obtain ⟨k, w⟩ := e
+    by_cases hg : g = k
+    · subst hg
+      have e1 : ((g, w) :: r).filter (fun e => q e.1) = (g, w) :: r.filter (fun e => q e.1) := by simp [hq]
+      rw [e1]; simp [List.lookup]
+    · have hb : (g == k) = false := by simp [hg]
+      by_cases hk : q k = true
+      · have e1 : ((k, w) :: r).filter (fun e => q e.1) = (k, w) :: r.filter (fun e => q e.1) := by simp [hk]
+        rw [e1]; simp only [List.lookup, hb]; exact ih
+      · have e1 : ((k, w) :: r).filter (fun e => q e.1) = r.filter (fun e => q e.1) := by simp [hk]
+        rw [e1]; simp only [List.lookup, hb]; exact ih
+
 /-! ### pointers -/
 
 theorem mem_ptrs {ob : Obj} {v : Nat} :
@@ -247,6 +288,12 @@ theorem alloc_obj (s : S) (ob : Obj) (i : Nat) :
 theorem write_obj (s : S) (o f v i : Nat) :
     (s.write o f v).h.obj i = if i = o then { s.h.obj o with fields := setF (s.h.obj o).fields f v } else s.h.obj i := rfl
 
+@[simp] theorem del_next (s : S) (o f : Nat) : (s.del o f).h.next = s.h.next := rfl
+@[simp] theorem del_tr (s : S) (o f : Nat) : (s.del o f).tr = s.tr ++ [.write o f] := rfl
+theorem del_obj (s : S) (o f i : Nat) :
+    (s.del o f).h.obj i =
+      if i = o then { s.h.obj o with fields := (s.h.obj o).fields.filter (fun e => e.1 != f) } else s.h.obj i := rfl
+
 @[simp] theorem setWeak_next (s : S) (o : Nat) (w : Option Nat) : (s.setWeak o w).h.next = s.h.next := rfl
 @[simp] theorem setWeak_tr (s : S) (o : Nat) (w : Option Nat) : (s.setWeak o w).tr = s.tr ++ [.weakw o] := rfl
 theorem setWeak_obj (s : S) (o : Nat) (w : Option Nat) (i : Nat) :
@@ -280,6 +327,15 @@ theorem getF_write (s : S) (o f v o' f' : Nat) :
     by_cases hf : f' = f
     · subst hf; simp [lookup_setF_same]
     · simp [hf, lookup_setF_ne _ _ _ _ hf]
+  · simp [ho]
+
+theorem getF_del (s : S) (o f o' f' : Nat) :
+    getF (s.del o f).h o' f' = if o' = o ∧ f' = f then none else getF s.h o' f' := by
+  unfold getF; rw [del_obj]
+  by_cases ho : o' = o
+  · subst ho
+    simp only [if_true, true_and]
+    exact lookup_filter_ne _ _ _
   · simp [ho]
 
 theorem getF_setWeak (s : S) (o : Nat) (w : Option Nat) (o' f : Nat) :
@@ -343,6 +399,25 @@ theorem Wf.write {s : S} (w : Wf s.h) {o f v : Nat} (ho : o < s.h.next) (hv : v 
         · exact w.closed o x (mem_ptrs.2 (Or.inl ⟨g, h⟩))
         · have : x = v := by simpa using congrArg Prod.snd h
           omega
+      · exact w.closed o x (mem_ptrs.2 (Or.inr (Or.inl h)))
+      · exact w.closed o x (mem_ptrs.2 (Or.inr (Or.inr h)))
+    · exact w.closed i x hx
+
+theorem Wf.del {s : S} (w : Wf s.h) {o f : Nat} (ho : o < s.h.next) : Wf (s.del o f).h where
+  fresh := by
+    intro i hi
+    simp only [del_next] at hi
+    rw [del_obj]
+    have : i ≠ o := by omega
+    simp only [this, if_false]
+    exact w.fresh i hi
+  closed := by
+    intro i x hx
+    simp only [del_next]
+    rw [del_obj] at hx
+    split at hx
+    · rcases mem_ptrs.1 hx with ⟨g, hg⟩ | h | h
+      · exact w.closed o x (mem_ptrs.2 (Or.inl ⟨g, (List.mem_filter.1 hg).1⟩))
       · exact w.closed o x (mem_ptrs.2 (Or.inr (Or.inl h)))
       · exact w.closed o x (mem_ptrs.2 (Or.inr (Or.inr h)))
     · exact w.closed i x hx
